@@ -28,21 +28,29 @@ var VerifC13Reconfigured bool
 // some earlier life (re-created from a saved manifest, or by a controller that copies annotations).
 var VerifC13StaleInfos bool
 
+// VerifC13ReloadInBind: if > 0, galaxy-ipam runs with a former configuration (VLAN ids 9, 11) when the pod is first
+// bound; that Bind fails at its binding call, and the reload to the configuration in force runs inside the
+// VerifC13ReloadInBind-th window (API-server / store call) of that attempt, or right after it if the attempt offers no
+// such window; the scheduler then retries. What the retried Bind reports must be the configuration in force.
+var VerifC13ReloadInBind int
+
 // VerifBindForC13 schedules one statefulset pod requesting k ranges (k = 0 means no request_ip_range) on topology
 // topo whose pools carry the VLAN ids vlans (pool i gets vlans[i mod len]; may be symbolic) through the real Filter and Bind and reports the outcome.
 func VerifBindForC13(topo, k int, vlans ...uint16) *VerifBound {
 	floatingip.VPoolVlanOverride = vlans
 	defer func() { floatingip.VPoolVlanOverride = nil }()
 	w := vpNewWorld(topo, false)
-	if VerifC13Reconfigured {
+	if VerifC13Reconfigured || VerifC13ReloadInBind > 0 {
 		floatingip.VPoolVlanOverride = []uint16{9, 11}
 		if err := w.configure(); err != nil {
 			return nil
 		}
 		floatingip.VPoolVlanOverride = vlans
 	}
-	if err := w.configure(); err != nil {
-		return nil
+	if VerifC13ReloadInBind == 0 {
+		if err := w.configure(); err != nil {
+			return nil
+		}
 	}
 	w.setStatefulSet(2)
 	// requested addresses alternate between the ends of the address list so that several pools are involved
@@ -86,6 +94,30 @@ func VerifBindForC13(topo, k int, vlans ...uint16) *VerifBound {
 	nodes, err := w.filter("ss-0", "n1", "n2", "n3")
 	if err != nil || len(nodes) == 0 {
 		return nil
+	}
+	if VerifC13ReloadInBind > 0 {
+		w.interferer = func() {
+			floatingip.VPoolVlanOverride = vlans
+			_ = w.configure()
+		}
+		w.winCount, w.windowAt = 0, VerifC13ReloadInBind
+		w.faultKinds = map[string]bool{"pods.bind": true}
+		w.calls, w.faultAt, w.faultAll = 0, 1, true
+		_ = w.bind("ss-0", nodes[0]) // the binding call fails (also when Bind repeats it)
+		w.faultAt, w.faultKinds, w.faultAll = 0, nil, false
+		w.finishInterference()
+		if w.interferer != nil {
+			f := w.interferer
+			w.interferer = nil
+			f()
+		}
+		if w.pods["ss-0"].Spec.NodeName != "" {
+			return nil
+		}
+		nodes, err = w.filter("ss-0", "n1", "n2", "n3")
+		if err != nil || len(nodes) == 0 {
+			return nil
+		}
 	}
 	if w.bind("ss-0", nodes[0]) != nil {
 		return nil
